@@ -12,8 +12,10 @@ package main
 import (
 	"flag"
 	"fmt"
+	"runtime/debug"
 	"sort"
 	"sync"
+	"time"
 
 	"verifmc/core"
 )
@@ -74,6 +76,14 @@ func main() {
 	only := flag.String("only", "", "run only harness A or B (debugging)")
 	onlyCfg := flag.String("cfg", "", "harness A: run only configurations whose name contains this text (debugging)")
 	r := core.Start("C16")
+	debug.SetGCPercent(400)  // every execution builds a fresh app: allocation-heavy, small live heap
+	if r.Deadline.IsZero() { // internal budget: a capped run ends with exhaustive=false and exit 0
+		if r.Quick() {
+			r.Deadline = r.Start.Add(55 * time.Second)
+		} else {
+			r.Deadline = r.Start.Add(14 * time.Minute)
+		}
+	}
 	col := &collector{}
 	var samples []any
 
